@@ -201,6 +201,11 @@ def catches (cats : List Nat) (x : Nat) : Bool := cats.any (fun d => isSub x (to
     (∃ d, d ∈ cats ∧ isSub x (toPy d) = true) ↔ catches cats x = true := by
   simp [catches]
 
+/-- the normal form simp gives the *negated* test (`not (… and any(isinstance …))`, arms swapped) -/
+@[simp] theorem forall_cats (x : Nat) (cats : List Nat) :
+    (∀ d, d ∈ cats → isSub x (toPy d) = false) ↔ catches cats x = false := by
+  simp [catches]
+
 @[simp] theorem retryable_cfgOf (limit : Nat) (cats : List Nat) (d : Retry.DelayArg) (c n : Nat) :
     Retry.retryable (cfgOf limit cats d) (.raised ⟨c, n⟩) = (!isSub (toPy c) 2 && isSub (toPy c) 1 && catches cats (toPy c)) := by
   simp [Retry.retryable, cfgOf, catches]
